@@ -459,15 +459,21 @@ def rand_graph(rng, L, idbase=0, maxw=3, nops=3, charges=True, pool=None):
     return g
 
 
-def rand_tree(rng, rem, nops=3, pleaf=0.25, maxch=3, root=True, pzero=0.0, pool=None):
-    """Returns (OpTreeNode, polynomial with variable-length words). pzero: probability of an exactly-zero edge coefficient."""
+def rand_tree(rng, rem, nops=3, pleaf=0.25, maxch=3, root=True, pzero=0.0, pool=None, charges=False, root_q=None):
+    """Returns (OpTreeNode, polynomial with variable-length words). pzero: probability of an exactly-zero edge coefficient.
+    charges: tree nodes carry random quantum numbers -1..1 (a node that sits on the terminal layer, rem == 0, must carry 0; root_q fixes the root's)."""
+    q = 0
+    if charges and rem > 0:
+        q = int(rng.integers(-1, 2))
+    if root and root_q is not None:
+        q = root_q
     if rem == 0 or (not root and rng.random() < pleaf):
-        return ptn.OpTreeNode([], 0), {(): 1.0}
+        return ptn.OpTreeNode([], q), {(): 1.0}
     nch = int(rng.integers(1, maxch + 1))
-    node = ptn.OpTreeNode([], 0)
+    node = ptn.OpTreeNode([], q)
     poly = {}
     for _ in range(nch):
-        child, cp = rand_tree(rng, rem - 1, nops, pleaf, maxch, root=False, pzero=pzero, pool=pool)
+        child, cp = rand_tree(rng, rem - 1, nops, pleaf, maxch, root=False, pzero=pzero, pool=pool, charges=charges)
         oid = int(rng.integers(0, nops)) if pool is None else int(pool[int(rng.integers(0, min(nops, len(pool))))])
         co = 0.0 if rng.random() < pzero else float(rng.choice([-1, .5, 1, 2]))
         node.add_child(ptn.OpTreeEdge(oid, co, child))
